@@ -234,6 +234,8 @@ class Interp:
             else:
                 toks.add(t)
         if container.comps is not None and container.kind == "list":
+            if "[*]c" in container.comps:
+                return AV(toks | container.comps.get("[*]", E), container.comps["[*]c"], "hist", "element")
             return AV(toks | container.comps.get("[*]", E))
         return AV(toks)
 
@@ -361,7 +363,10 @@ class Interp:
                     self.bind(g.target.elts[1], self.element_of(inner), env2)
                     self.bind(g.target.elts[0], AV(), env2)
             el = self.ev(e.elt, env2, fi, cls, assume, depth)
-            return AV(E, {"[*]": el.aliases}, "list")
+            comps = {"[*]": el.aliases}
+            if el.comps is not None and el.kind == "hist":
+                comps["[*]c"] = el.comps  # shared summary of the elements' components
+            return AV(E, comps, "list")
         if isinstance(e, ast.Starred):
             return self.ev(e.value, env, fi, cls, assume, depth)
         if isinstance(e, ast.Call):
@@ -415,6 +420,10 @@ class Interp:
             hs = frozenset().union(*[self.element_of(a).aliases if a.kind != "list" else a.comps.get("[*]", E)
                                      for a in args]) if args else E
             hs = hs | frozenset().union(*[a.aliases for a in args]) if args else hs
+            for a in args:
+                if a.kind == "list" and a.comps is not None and "[*]c" in a.comps:
+                    for toks in a.comps["[*]c"].values():
+                        hs = hs | toks
             return AV(E, {"histograms[*]": hs, "_binnings[*]": kws.get("binning", AV()).aliases}, "hist", "collection")
         if ftxt in FRESH_FUNCS:
             return AV()
@@ -447,7 +456,8 @@ class Interp:
             if name == "__new__":
                 return fresh_hist("__new__")
             if name == "copy":
-                if self.is_hist_value(recv) or (recv.comps is not None and recv.kind == "hist"):
+                if self.is_hist_value(recv) or (recv.comps is not None and recv.kind == "hist") \
+                        or any(t.endswith("histograms[*]") for t in recv.aliases):
                     if recv.note == "collection" or any(t.endswith("collection") for t in recv.aliases):
                         pass
                     return fresh_hist("copy()")
